@@ -121,10 +121,10 @@ def rule_readonly_inputs(ctx, chk, eng, pid, rule='readonly-input'):
             for e in s.effects.values():
                 if e.obj[0] != root:
                     continue
-                own = [t for t in e.guarded if t.startswith('owner@')]
-                if own and all(t != 'owner@' + root for t in own):
-                    # guarded by the owner flag of a different (output) URI
-                    other = own[0][6:]
+                own = [t[1][0] for t in e.guarded if isinstance(t, tuple)]
+                if (own and all(t != root for t in own)) or (not own and 'donemask' in e.guarded):
+                    # guarded by the owner flag (or the duplicated-components mask) of a different (output) URI
+                    other = own[0] if own else 'L:'
                     if other.startswith('P:'):
                         oi = f.params.index(other[2:]) if other[2:] in f.params else -1
                         if oi >= 0 and oi not in pos:
